@@ -278,11 +278,15 @@ def gen_module(
         )  # type: tuple[Union[FunctionDef, ClassDef]]
     if emit_and_infer_imports:
         imports: str = "{}{}".format(
-            imports or "",
-            " ".join(
+            "{}\n".format(imports) if imports else "",
+            "\n".join(
                 map(
                     to_code,
-                    optimise_imports(chain(*map(infer_imports, functions_and_classes))),
+                    optimise_imports(
+                        chain.from_iterable(
+                            filter(None, map(infer_imports, functions_and_classes))
+                        )
+                    ),
                 )
             ),
         )
